@@ -342,7 +342,9 @@ def rp66_file(rng, size='small', seven_bit=True, hostile_names=True, layout=None
         maxf = {'small': 12, 'medium': 60, 'large': 400}[size]
         plan = []
         for f in fts:
-            nfr = rng.choice([0, 1, 2, 3, maxf // 2, maxf]) if rng.random() < 0.5 else rng.randrange(0, maxf + 1)
+            nfr = rng.choice([1, 2, 3, maxf // 2, maxf]) if rng.random() < 0.5 else rng.randrange(1, maxf + 1)
+            if rng.random() < 0.04:
+                nfr = 0               # a frame type without frame data: outside the quantifier of C04 / C18, only counted
             x0 = rng.choice([0.0, 1000.0, -250.5, 1e6, 3.25])
             style = rng.choice(['even', 'even', 'even', 'jitter', 'steps', 'constant', 'reverse'])
             xs = []
@@ -447,7 +449,7 @@ def las_text(rng, controls=True, nframes=None):
     n = nframes if nframes is not None else rng.choice([0, 1, 2, 5, 30])
     step = rng.choice([0.5, 0.1524, -0.5])
     start = rng.choice([100.0, 2500.5])
-    L = ['~Version Information', ' VERS.   2.0 : CWLS LOG ASCII STANDARD - VERSION 2.0', ' WRAP.   %s : %s' % ('YES' if m.wrap else 'NO', ht(20)),
+    L = ['~Version Information', ' VERS.   2.0 : CWLS LOG ASCII STANDARD - VERSION 2.0', ' WRAP.   %s : wrap mode %s' % ('YES' if m.wrap else 'NO', ht(20, colon=False)),
          '~Well Information', ' STRT.M  %.4f : START' % start, ' STOP.M  %.4f : STOP' % (start + step * max(n - 1, 0)), ' STEP.M  %.4f : STEP' % step,
          ' NULL.   -999.25 : NULL']
     for k in ('COMP', 'WELL', 'FLD', 'LOC', 'SRVC', 'UWI'):
